@@ -15,6 +15,8 @@
 package main
 
 import (
+	"bytes"
+	"encoding/json"
 	"fmt"
 	"strings"
 
@@ -527,11 +529,29 @@ func (e *env) blockBinding(cs consensus.State, orig types.Block, bs consensus.V1
 		case rejected:
 			e.b.Count("block_mutations_rejected_with_same_id", 1)
 		case strings.Contains(class, ".FileContractRevisions[].(FileContract).Payout"):
+			// never transmitted and not covered by any ID: then it must not bear any effect either
 			e.b.Count("either:block"+class, 1)
+			ts := e.c.AncestorTimestamp(cs.Index.Height)
+			s0, au0 := consensus.ApplyBlock(cs, orig, bs, ts)
+			s1, au1 := consensus.ApplyBlock(cs, m, bs, ts)
+			j0, _ := json.Marshal(au0)
+			j1, _ := json.Marshal(au1)
+			e.b.Count("unbound_field_effect_comparisons", 1)
+			if !bytes.Equal(encState(s0), encState(s1)) || !bytes.Equal(j0, j1) {
+				e.b.Violate("C12/same-id-different-effect/"+class, fmt.Sprintf("two accepted blocks with the same ID %x that differ only in %s lead to different states / updates", id0[:8], class), map[string]any{"field": class, "height": cs.Index.Height + 1})
+			}
 		default:
 			e.b.Violate("C12/block-not-bound/"+class, fmt.Sprintf("after changing %s the block keeps its ID %x and is still accepted", class, id0[:8]), map[string]any{"field": class, "height": cs.Index.Height + 1})
 		}
 	}
+}
+
+func encState(s consensus.State) []byte {
+	var buf bytes.Buffer
+	e := types.NewEncoder(&buf)
+	s.EncodeTo(e)
+	e.Flush()
+	return buf.Bytes()
 }
 
 func run(b *harness.B) {
